@@ -830,7 +830,15 @@ def evaluate_quantified_formula(
             grammar,
             graph.reachable,
         )
-        for path_to_nonterminal, _ in reference_tree.open_leaves()
+        # An open leaf labeled with the quantified nonterminal matches already, but
+        # its expansions contain further matches if that nonterminal is recursive.
+        or (
+            formula.bind_expression is None
+            and open_leaf.value == formula.bound_variable.n_type
+            and in_inst.find_node(open_leaf) is not None
+            and graph.reachable(open_leaf.value, open_leaf.value)
+        )
+        for path_to_nonterminal, open_leaf in reference_tree.open_leaves()
     )
 
     if isinstance(formula, ForallFormula):
